@@ -500,7 +500,7 @@ func init() {
 					}
 					c.StepBudget, c.StepsPerByte, c.StepIsViol = 8000000, 0, true
 					c.AllocBudget, c.AllocPerByte, c.AllocIsViol = 1<<18, 0, true
-					c.MaxWallS = tierW(tier, 15, 40)
+					c.MaxWallS = tierW(tier, 30, 60)
 					r = append(r, &c)
 				}
 			}
